@@ -619,67 +619,86 @@ def _report_spacing(lim, case, v):
 
 def _run_spacing(rep, lim):
     rng, thorough = rep.rng, rep.tier == 'thorough'
-    # exhaustive two-row tables: every relative position
-    smax, lmax, mdmax = (11, 5, 7) if thorough else (8, 4, 5)
-    n = 0
-    for md in range(1, mdmax + 1):
-        for l0 in range(1, lmax + 1):
-            for l1 in range(1, lmax + 1):
-                for s0 in range(0, smax + 1):
-                    for s1 in range(0, smax + 1):
-                        if rep.out_of_time():
-                            rep.note('time budget reached in the two-row spacing enumeration')
-                            return
-                        n += 1
-                        a0, a1 = [(0, 1), (1, 0), (1, 1), (0, 0)][n % 4]
-                        rows = [[0, a0, s0, s0 + l0], [0, a1, s1, s1 + l1]]
-                        case = {'kind': 'spacing', 'rows': rows, 'form': SPACING_FORMS[n % len(SPACING_FORMS)], 'idtype': 'int64',
-                                'dtype': ['uint8', 'int32', 'int64'][n % 3], 'max_distance': md, 'symmetric': n % 7 != 0, 'shape': None}
-                        v = check_spacing(case)
-                        _, _, d = _gap(rows[0], rows[1])
-                        rep.case(('sp2', md, l0, l1, s0, s1), nontrivial=True, sample=case,
-                                 section='spacing-2rows-%s' % ('overlap' if d < 0 else 'gap<md' if d < md else 'gap==md' if d == md else 'gap>md'))
-                        _report_spacing(lim, case, v)
-    rep.mark_exhaustive('pairwise_annotations_spacing on every two-row table with starts 0-%d, lengths 1-%d, max_distance 1-%d' % (smax, lmax, mdmax))
-    # exhaustive three-row tables (all listing orders, as the product is over ordered triples): two pairs of one row in one cell,
-    # listed before / between / after its partners
-    spans = [(s0, s0 + l) for s0 in range(0, 5 if thorough else 4) for l in (1, 2)]
-    for md in (1, 2, 3):
-        for trip in itertools.product(spans, repeat=3):
-            if rep.out_of_time():
-                rep.note('time budget reached in the three-row spacing enumeration')
-                return
-            n += 1
-            anns = [[(n + i) % 2 for i in range(3)], [0, 0, 0], [1, 0, 0], [0, 2, 0]][(n // 3) % 4]
-            rows = [[0, anns[i], sp[0], sp[1]] for i, sp in enumerate(trip)]
-            case = {'kind': 'spacing', 'rows': rows, 'form': SPACING_FORMS[n % len(SPACING_FORMS)], 'idtype': 'int64',
-                    'dtype': 'int32', 'max_distance': md, 'symmetric': n % 5 != 0, 'shape': None}
-            v = check_spacing(case)
-            rep.case(('sp3', md, trip), sample=None, section='spacing-3rows')
-            _report_spacing(lim, case, v)
-    rep.mark_exhaustive('pairwise_annotations_spacing on every three-row table with starts 0-%d, lengths 1-2, max_distance 1-3' % (4 if thorough else 3))
-    # corners: default call (max_distance 100, uint8, symmetric), 200 rows of one example
-    corner = [
-        [[0, 0, 0, 5], [0, 1, 8, 12], [0, 1, 8, 12], [1, 0, 3, 4]],                             # the two coincident spans share a cell
-        [[0, 1, 0, 4], [0, 0, 103, 110], [0, 2, 104, 105], [0, 1, 204, 206], [0, 1, 205, 207]],   # gaps 99 (counted), 100 (not), 98, 99 ...
-        [[3, 2, 50, 60], [3, 2, 10, 20], [3, 0, 159, 170], [3, 0, 160, 170], [3, 1, 60, 61]],
-        [[0, 0, 10 * i, 10 * i + 10 - i % 3] for i in range(200)],                               # 200 rows, one example, 19900 pairs
-        [[i % 2, i % 3, 7 * i, 7 * i + 1 + i % 6] for i in range(200)],
-    ]
-    k = 0
-    for rows in corner:
-        for form in (SPACING_FORMS if len(rows) < 100 else SPACING_FORMS[k % 4::4]):
-            if rep.out_of_time():
-                return
-            k += 1
-            omit = k % 2 == 0
-            U = _spacing_expected(rows, DEFAULT_MAX_DISTANCE if omit else 100 + k)
-            case = {'kind': 'spacing', 'rows': rows, 'form': form, 'idtype': ['int64', 'int32', 'int16'][k % 3],
-                    'dtype': None if omit else _pick_dtype(rng, U), 'max_distance': None if omit else 100 + k,
-                    'symmetric': None if omit else k % 3 != 0, 'shape': [None, 3, None, 12][k % 4], 'omit': omit}
-            v = check_spacing(case)
-            rep.case(('sp-corner', k, repr(rows), form), nontrivial=len(U) > 0, sample=None, section='spacing-corners')
-            _report_spacing(lim, case, v)
+    # order (each block stops the whole part when the part's time slice is used up): the small corner tables and the
+    # three-row tables come first - they are cheap and are the only ones in which two pairs of one row share a cell
+    state = {'n': 0}
+
+    def two_rows():
+      smax, lmax, mdmax = (11, 5, 7) if thorough else (8, 4, 5)
+      n = state['n']
+      for md in range(1, mdmax + 1):
+          for l0 in range(1, lmax + 1):
+              for l1 in range(1, lmax + 1):
+                  for s0 in range(0, smax + 1):
+                      for s1 in range(0, smax + 1):
+                          if rep.out_of_time():
+                              rep.note('time budget reached in the two-row spacing enumeration')
+                              return False
+                          n += 1
+                          a0, a1 = [(0, 1), (1, 0), (1, 1), (0, 0)][n % 4]
+                          rows = [[0, a0, s0, s0 + l0], [0, a1, s1, s1 + l1]]
+                          case = {'kind': 'spacing', 'rows': rows, 'form': SPACING_FORMS[n % len(SPACING_FORMS)], 'idtype': 'int64',
+                                  'dtype': ['uint8', 'int32', 'int64'][n % 3], 'max_distance': md, 'symmetric': n % 7 != 0, 'shape': None}
+                          v = check_spacing(case)
+                          _, _, d = _gap(rows[0], rows[1])
+                          rep.case(('sp2', md, l0, l1, s0, s1), nontrivial=True, sample=case,
+                                   section='spacing-2rows-%s' % ('overlap' if d < 0 else 'gap<md' if d < md else 'gap==md' if d == md else 'gap>md'))
+                          _report_spacing(lim, case, v)
+      rep.mark_exhaustive('pairwise_annotations_spacing on every two-row table with starts 0-%d, lengths 1-%d, max_distance 1-%d' % (smax, lmax, mdmax))
+      state['n'] = n
+      return True
+
+    def three_rows():
+      n = state['n']
+      # exhaustive three-row tables (all listing orders, as the product is over ordered triples): two pairs of one row in one cell,
+      # listed before / between / after its partners
+      spans = [(s0, s0 + l) for s0 in range(0, 5 if thorough else 4) for l in (1, 2)]
+      for md in (1, 2, 3):
+          for trip in itertools.product(spans, repeat=3):
+              if rep.out_of_time():
+                  rep.note('time budget reached in the three-row spacing enumeration')
+                  return False
+              n += 1
+              anns = [[(n + i) % 2 for i in range(3)], [0, 0, 0], [1, 0, 0], [0, 2, 0]][(n // 3) % 4]
+              rows = [[0, anns[i], sp[0], sp[1]] for i, sp in enumerate(trip)]
+              case = {'kind': 'spacing', 'rows': rows, 'form': SPACING_FORMS[n % len(SPACING_FORMS)], 'idtype': 'int64',
+                      'dtype': 'int32', 'max_distance': md, 'symmetric': n % 5 != 0, 'shape': None}
+              v = check_spacing(case)
+              rep.case(('sp3', md, trip), sample=None, section='spacing-3rows')
+              _report_spacing(lim, case, v)
+      rep.mark_exhaustive('pairwise_annotations_spacing on every three-row table with starts 0-%d, lengths 1-2, max_distance 1-3' % (4 if thorough else 3))
+      state['n'] = n
+      return True
+
+    def corners(small):
+      # corners: default call (max_distance 100, uint8, symmetric), 200 rows of one example
+      corner = [
+          [[0, 0, 0, 5], [0, 1, 8, 12], [0, 1, 8, 12], [1, 0, 3, 4]],                             # the two coincident spans share a cell
+          [[0, 1, 0, 4], [0, 0, 103, 110], [0, 2, 104, 105], [0, 1, 204, 206], [0, 1, 205, 207]],   # gaps 99 (counted), 100 (not), 98, 99 ...
+          [[3, 2, 50, 60], [3, 2, 10, 20], [3, 0, 159, 170], [3, 0, 160, 170], [3, 1, 60, 61]],
+          [[0, 0, 10 * i, 10 * i + 10 - i % 3] for i in range(200)],                               # 200 rows, one example, 19900 pairs
+          [[i % 2, i % 3, 7 * i, 7 * i + 1 + i % 6] for i in range(200)],
+      ]
+      k = 0
+      for rows in corner:
+          if (len(rows) < 100) != small:
+              continue
+          for form in (SPACING_FORMS if len(rows) < 100 else SPACING_FORMS[k % 4::4]):
+              if rep.out_of_time():
+                  return False
+              k += 1
+              omit = k % 2 == 0
+              U = _spacing_expected(rows, DEFAULT_MAX_DISTANCE if omit else 100 + k)
+              case = {'kind': 'spacing', 'rows': rows, 'form': form, 'idtype': ['int64', 'int32', 'int16'][k % 3],
+                      'dtype': None if omit else _pick_dtype(rng, U), 'max_distance': None if omit else 100 + k,
+                      'symmetric': None if omit else k % 3 != 0, 'shape': [None, 3, None, 12][k % 4], 'omit': omit}
+              v = check_spacing(case)
+              rep.case(('sp-corner', k, repr(rows), form), nontrivial=len(U) > 0, sample=None, section='spacing-corners')
+              _report_spacing(lim, case, v)
+      return True
+
+    if not (corners(True) and three_rows() and two_rows() and corners(False)):
+        return
     per = 2500 if thorough else 400
     max_rows = 200
     max_pairs = 20000 if thorough else 3000
@@ -921,10 +940,14 @@ def _run_kmers(rep, lim):
 
 def run(rep):
     lim = _Lim(rep)
-    _run_kmers(rep, lim)
-    _run_count(rep, lim)
-    _run_pair(rep, lim)
-    _run_spacing(rep, lim)
+    # every part gets a slice of the budget (time a part leaves unused rolls over to the later ones): on a loaded
+    # machine no part is starved by the ones before it - the exhaustive small spacing tables in particular
+    total, t0 = rep.budget_s, rep.t0
+    import time as _time
+    for part, share in ((_run_spacing, 0.35), (_run_pair, 0.2), (_run_count, 0.15), (_run_kmers, 0.3)):
+        rep.budget_s = min(total, (_time.time() - t0) + share * total)
+        part(rep, lim)
+    rep.budget_s = total
     lim.finish()
 
 
